@@ -328,6 +328,7 @@ func (Concurrent) Run(c choice.Chooser, opt sim.Options) (res sim.Result) {
 		}
 	}
 	res.Sig = fmt.Sprintf("%016x/%s", choice.Hash64(strings.Join(hist, ";")), out.Signature())
+	res.DetHash = fmt.Sprintf("%016x/%s", choice.Hash64(strings.Join(hist, ";")), out.Decisions)
 	res.Nontrivial = out.Switches >= 1
 	detail := map[string]any{"history": hist, "policy": out.PolicyName}
 	switch {
